@@ -38,7 +38,7 @@ Report(line, i, router, obs, failed) ==
                                class |-> Class(line.doc, line.reqs[i], router, obs, failed)])>>,
             "violations.ndjson")
 
-Pred(doc, req, router) == IF router = "g" THEN MuxObs(doc, req, FALSE, FALSE) ELSE LegacyObs(doc, req, FALSE, FALSE, FALSE)
+Pred(doc, req, router) == IF router = "g" THEN CurMuxObs(doc, req) ELSE CurLegacyObs(doc, req)
 
 JudgeObs(line, i, router) ==
    LET obs == line[router][i]
